@@ -231,6 +231,37 @@ fn width_programs(n: usize) -> Vec<(&'static str, String)> {
   ]
 }
 
+/// Diagnostics whose source range starts / ends on lines with multi-byte characters, tabs or CR,
+/// spans one or several lines, or refers to a second location: the frame renderer slices lines by
+/// the reported columns.
+fn rendering_programs() -> Vec<(String, String)> {
+  let prefixes = ["", "/* ab */ ", "/* \u{e9} */ ", "/* \u{4e2d}\u{6587} */ ", "/* \u{1f600} */ ", "/* \u{4e2d}\u{6587}\u{4e2d}\u{6587}\u{4e2d}\u{6587}\u{4e2d}\u{6587}\u{4e2d}\u{6587} */ ", "\t", "/* a\rb */ "];
+  let suffixes = ["", " /* \u{4e2d} */", " // \u{1f600}\u{1f600}\u{1f600}"];
+  // (name, template; P = prefix placed before the start of the erroneous range, S = suffix after its end)
+  let shapes: [(&str, &str); 8] = [
+    ("multi-line block of the wrong type", "class Main {\n  function f(): int = P{\n    let a = 1;\n  }S\n}\n"),
+    ("multi-line call argument list", "class Main {\n  function g(a: int, b: int): int = a\n  function f(): int = PMain.g(\n    1,\n    \"s\"\n  )S\n}\n"),
+    ("single-line mismatch after the prefix", "class Main {\n  function f(): int = P\"s\"S\n}\n"),
+    ("mismatch with a reference to the annotation line", "class Main {\n  function f(): unit = {\n    let x: P int = 1;S\n    let y: Str = Px;S\n  }\n}\n"),
+    ("name collision referring to the first definition", "class Main {\n  function f(): unit = {\n    let P a = 1;S\n    let P a = 2;S\n  }\n}\n"),
+    ("multi-line match that is not exhaustive", "class E(A, B) {}\nclass Main {\n  function f(e: E): int = Pmatch e {\n    A -> 1,\n  }S\n}\n"),
+    ("multi-line lambda of the wrong type", "class Main {\n  function f(): (int) -> int = P(a) ->\n    \"s\"S\n}\n"),
+    ("unterminated construct at the end of input", "class Main {\n  function f(): int = P{S"),
+  ];
+  let mut out = vec![];
+  for (name, t) in shapes {
+    for p in prefixes {
+      for sfx in suffixes {
+        for eol in ["\n", "\r\n"] {
+          let text = t.replace('P', p).replace('S', sfx).replace("\n", eol);
+          out.push((format!("{name}; prefix {p:?}, suffix {sfx:?}, line ending {eol:?}"), text));
+        }
+      }
+    }
+  }
+  out
+}
+
 fn worker_main(args: &[String]) -> ! {
   // forked worker: `--worker ladder <kind> <depth>`; runs on the main thread (8 MiB, like the CLI)
   let kind: usize = args[2].parse().unwrap();
@@ -481,6 +512,7 @@ fn main() {
   });
   let mut multi: Vec<vcore::illtyped::Ill> = vcore::illtyped::conformance();
   multi.extend(vcore::illtyped::visibility());
+  multi.extend(vcore::illtyped::scope_escape());
   space.insert("conformance_and_visibility_programs".into(), json!(multi.len()));
   multi.par_iter().for_each(|g| {
     evaluated.fetch_add(1, Ordering::Relaxed);
@@ -492,6 +524,14 @@ fn main() {
         run.violation(&sig, &msg, json!({"input": t, "origin": g.what}));
       }
     }
+  });
+
+  // ---- 7. diagnostic rendering on hostile lines ----
+  let rendering = rendering_programs();
+  space.insert("diagnostic_rendering_programs".into(), json!(rendering.len()));
+  rendering.par_iter().for_each(|(what, t)| {
+    let r = timed(t);
+    report(t, &format!("rendering: {what}"), r)
   });
 
   let samples: Vec<Value> = spaced_samples(&soups, 3)
